@@ -8,7 +8,7 @@
                      back nil ([persist]).
      users_sqldb.go  databaseService: table "credentials" keyed by name (C30's store, primary key = column 0 =
                      Name) + the short-term AuthCache in front of ReadUser; WriteUser = cache delete, ReadUser
-                     (which caches a hit), Update or Insert, cache add; DeleteUser = cache delete + Delete;
+                     (which caches a hit), Update or Insert, cache add (caches.Add: bounded, see cadd); DeleteUser = cache delete + Delete;
                      NewDatabaseService inserts the default user when IT is missing; Flush does nothing.
      permissions.go  setPermission / GetPermission / GetPermissions / findPermission through the service.
    A restart (reopen) is Close, a fresh process (empty AuthCache) and New...Service on the same path. *)
@@ -99,6 +99,7 @@ Definition persist (u : user) : user :=
 Section Stores.
   Variable admin : user.      (* the default user created by New...Service *)
   Variable old_perm : bool.   (* true = pinned setPermission *)
+  Variable cap : nat.         (* caches.MaxSize of the AuthCache (ego.server.cache.maxsize, default 1000) *)
 
   Definition spu := if old_perm then set_perm_user_old else set_perm_user.
 
@@ -145,13 +146,18 @@ Section Stores.
     | None => mkd (tbl ++ [admin]) []
     end.
 
+  (* caches.Add: an existing entry for the key is removed first; a full cache rejects the item *)
+  Definition cadd (c : amap) (u : user) : amap :=
+    let c' := adel c (uname u) in
+    if Nat.leb cap (List.length c') then c' else c' ++ [u].
+
   (* ReadUser: cache, else table (a hit is cached) *)
   Definition dread (s : dstate) (n : str) : dstate * option user :=
     match aget (dcache s) n with
     | Some u => (s, Some u)
     | None =>
         match aget (dtbl s) n with
-        | Some u => (mkd (dtbl s) (aput (dcache s) u), Some u)
+        | Some u => (mkd (dtbl s) (cadd (dcache s) u), Some u)
         | None => (s, None)
         end
     end.
@@ -159,7 +165,7 @@ Section Stores.
     let s1 := mkd (dtbl s) (adel (dcache s) (uname u)) in
     let '(s2, _) := dread s1 (uname u) in
     (* found -> UPDATE where name =, else INSERT: both are aput on a table keyed by name *)
-    mkd (aput (dtbl s2) u) (aput (dcache s2) u).
+    mkd (aput (dtbl s2) u) (cadd (dcache s2) u).
 
   Definition dstep (s : dstate) (o : op) : dstate * ans :=
     match o with
